@@ -1,5 +1,6 @@
 import DaeVerif.C01.Model
 import DaeVerif.C01.Position
+import DaeVerif.Compose.Model
 import DaeVerif.Common.Proto
 /-!
 Line-protocol driver for C01.  Stateful: a `prog` line installs the current program, `pkt` lines
@@ -9,7 +10,7 @@ are evaluated against it.
     pkt <src32hex> <dst32hex> <sport> <dport> <ipver> <l4> <pname32hex> <dscp> <mac32hex> <dombits|->
     route <is4> <dst32hex>
 -/
-open DaeVerif DaeVerif.Proto DaeVerif.RuleScan DaeVerif.C12 DaeVerif.C01
+open DaeVerif DaeVerif.Proto DaeVerif.RuleScan DaeVerif.C12 DaeVerif.C01 DaeVerif.Compose
 
 abbrev P (α : Type) := List String → Option (α × List String)
 
@@ -110,6 +111,26 @@ def pRule : P SRule := fun ts => do
     pure (⟨cs.head, cs.tail, .mustRules⟩, ts)
   | _ => none
 
+/-- `<kind> <npats> pat*`, pat = `<hex|->` for full/suffix/keyword, `<rxId>` for regex -/
+def pDGroup : P (C11.Kind × List C11.Pat) := fun ts => do
+  let (k, ts) ← pTok ts
+  let (n, ts) ← pNat ts
+  match k with
+  | "regex" =>
+    let (ids, ts) ← pMany pNat n ts
+    pure ((.regex, ids.map fun i => ⟨[], true, i⟩), ts)
+  | _ =>
+    let kind : C11.Kind := if k = "full" then .full else if k = "suffix" then .suffix else if k = "keyword" then .keyword else .unknown
+    let (ps, ts) ← pMany pBytes n ts
+    pure ((kind, ps.map fun b => ⟨b, true, 0⟩), ts)
+
+def pDGroups : P (List (C11.Kind × List C11.Pat)) := fun ts =>
+  match ts with
+  | "D" :: ts => do
+    let (n, ts) ← pNat ts
+    pMany pDGroup n ts
+  | _ => some ([], ts)
+
 def pProg : P (List SRule × Out) := fun ts => do
   let (o, ts) ← pNat ts
   let (m, ts) ← pNat ts
@@ -141,6 +162,8 @@ def hitIndex (p : Pkt) : List SRule → Nat → Option Nat
 
 structure St where
   diag : Bool := false
+  groups : List (C11.Kind × List C11.Pat) := []
+  built : Option C11.Built := none       -- the real-matcher model, built once per program
   prog : List (Entry MCond Out) := []
   rules : List SRule := []
   fb : Out := ⟨0, 0, false⟩
@@ -153,13 +176,35 @@ def step (st : St) (line : String) : St × String :=
   match words line with
   | "prog" :: ts =>
     match pProg ts with
-    | some ((rules, fb), []) =>
-      let prog := compileProgram rules fb
-      ({ st with prog := prog, rules := rules, fb := fb }, "ok")
+    | some ((rules, fb), rest) =>
+      match pDGroups rest with
+      | some (groups, []) =>
+        let prog := compileProgram rules fb
+        let P : DProgram := ⟨rules, fb, groups⟩
+        let built := match (C11.Matcher.replay 1024 (addCalls P)).build with
+          | .ok b => some b
+          | .error _ => none
+        ({ st with prog := prog, rules := rules, fb := fb, groups := groups, built := built }, "ok")
+      | _ => (st, "bad-op")
     | _ => (st, "bad-op")
   | "pkt" :: ts =>
+    -- optional trailing `N <namehex|-> <rxid,rxid,..|->`: the packet's domain name and the regex
+    -- patterns Go's regexp matched, for the composed (real domain matcher) path
+    let (ts, nameTok) := match ts.reverse with
+      | rx :: nm :: "N" :: rest => (rest.reverse, some (nm, rx))
+      | _ => (ts, none)
     match pPkt ts with
     | some p =>
+      let real : String := match nameTok, st.built with
+        | some (nm, rx), some b =>
+          if nm = "-" then "" else
+          match hexToBytes? nm with
+          | some name =>
+            let rxHits := if rx = "-" then [] else (rx.splitOn ",").filterMap String.toNat?
+            let r := matchWithBuilt b ⟨st.rules, st.fb, st.groups⟩ p name rxHits
+            if r == matchAt st.rules st.fb p then "" else " REAL-MATCHER-DIFFERS " ++ outStr r
+          | none => " bad-name"
+        | _, _ => ""
       -- both the compiled-level scan and the source-level specification are evaluated; they are
       -- proved equal (Props.match_is_first_match), the driver prints the scan and flags any difference
       let a := matchAt st.rules st.fb p   -- incremental build + evaluation by position, as the code does
@@ -167,7 +212,7 @@ def step (st : St) (line : String) : St × String :=
       let d := if st.diag then (match hitIndex p st.rules 0 with
         | some i => s!" hit={i}/{st.rules.length}"
         | none => s!" hit=fb/{st.rules.length}") else ""
-      (st, outStr a ++ (if a == some b then "" else " SPEC-DIFFERS " ++ outStr (some b)) ++ d)
+      (st, outStr a ++ (if a == some b then "" else " SPEC-DIFFERS " ++ outStr (some b)) ++ real ++ d)
     | none => (st, "bad-op")
   | ["route", is4, dst] =>
     match hexToNat? dst with
